@@ -182,7 +182,8 @@ def vSchema : Schema :=
     ⟨T "p", T "dept", T "d", .toOne (T "dn") (T "number")⟩, ⟨T "d", T "emps", T "p", .toMany (T "dn") (T "number")⟩ ]
 
 def vKind (c : Str) : Option ColK :=
-  if c == T "id" || c == T "n" || c == T "a" || c == T "x" || c == T "number" then some .int
+  -- (the foreign-key columns are ordinary integer columns of their tables: a to-one relationship compared with a key value is judged through them)
+  if c == T "id" || c == T "n" || c == T "a" || c == T "x" || c == T "number" || c == T "o_id" || c == T "w_id" || c == T "p_id" || c == T "dn" then some .int
   else if c == T "name" || c == T "s" || c == T "label" || c == T "title" then some .str
   else none
 
